@@ -164,39 +164,37 @@ Proof.
     now rewrite (bstmt2_mentions_list x l H1).
 Qed.
 
-(* STAGE 2: nested function levels, to any depth (fragment `stmt5 false true` of ScopeDefsN.v).
-   Script level and function bodies alike: var / assignment / print / expression statements / blocks (any nesting) /
-     `var f = |params| { body };` / `fn f(params) { body }`; in bodies also `return e`.
-   A closure created inside a closure body captures locals of that body (is_local = true; the captured flag makes the
-   scope end, or the return, close the upvalue inside the call frame) and variables of functions further out through
-   the enclosing closure's own upvalues (is_local = false, any number of levels: Parser::resolve_upvalue recursive);
-   the variable is shared by the declaring scope and all closures at all levels, while its frame is live and after it
-   has returned.  Self reference as in stage 1 (`var x = || .. x ..` only at the top level of the script). *)
-Theorem compile_scope_correct_stage2 : forall cf p funs fuel st en,
-  forallb (stmt5 false true) p = true -> compile_scope cf p = Some funs ->
+(* stages 3 and 4 share one simulation (ScopeSimN.v, parameter `jumps`); they differ in the compile correspondence used
+   (`break` needs the repaired order of scope-end ops and jump) *)
+Lemma compile_scope_correct_gen : forall jumps cf p funs fuel st en code L' fs',
+  forallb (stmt6 jumps false true false) p = true ->
+  nlist cf p 0 [mkLocal None (Some 0) false] [] [] [] 0 None = Some (code, L', [], [], fs') ->
+  funs = (fs' ++ [mkFunc (code ++ [INil; IReturn]) 0 0])%list ->
   exec_list fuel p [] true s_empty = (st, en, CNorm) ->
   exists n, forall k, Gen.run_funs bk_m cf (n + k) funs = eval_cells_fuel fuel p.
 Proof.
-  intros cf p funs fuel st en Hp Hc He.
-  destruct (compile_scope_stage2_shape5 cf p funs Hp Hc) as (code & L' & fs' & Hcl & Hfuns).
+  intros jumps cf p funs fuel st en code L' fs' Hp Hcl Hfuns He.
   set (fn := List.length fs').
   assert (Hfnlen : List.length funs - 1 = fn) by (rewrite Hfuns, app_length; cbn; unfold fn; lia).
   assert (Hcode : code_of funs fn = (code ++ [INil; IReturn])%list).
   { unfold code_of, fn. rewrite Hfuns, app_nth2 by lia. now rewrite Nat.sub_diag. }
-  destruct (simN_all cf funs fuel) as (_ & _ & HL).
+  destruct (simN_all cf funs jumps fuel) as (_ & _ & HL).
   pose proof (MS2_start funs) as HM0. rewrite Hfnlen in HM0.
-  assert (HS0 : STON cf funs s_empty [] [] (cv (m_start bk_c funs)) (cn (m_start bk_c funs)) [] []).
+  assert (HS0 : STON cf funs jumps s_empty [] [] (cv (m_start bk_c funs)) (cn (m_start bk_c funs)) [] []).
   { constructor; cbn; [reflexivity|constructor|intros k0 []|intros c Hc0; lia|constructor|reflexivity]. }
   assert (HLR0 : LRBN [] [0] [] 0 [mkLocal None (Some 0) false] []) by (constructor; [constructor|intros []]).
+  assert (Hd : depth_le 0 [mkLocal None (Some 0) false]) by (constructor; [cbn; lia|constructor]).
   assert (HC0 : CTX [] [0] [] 0 [mkLocal None (Some 0) false] [] [] [] [] []).
   { constructor; [exact HLR0|cbn; lia|constructor|intros j Hj; cbn in Hj; lia|intros x c []]. }
-  assert (Hd : depth_le 0 [mkLocal None (Some 0) false]) by (constructor; [cbn; lia|constructor]).
-  destruct (HL p false true [] [] s_empty st en CNorm He ltac:(left; reflexivity) Hp _ 0 [] [] [] code L' [] [] fs' Hcl eq_refl Hd
+  destruct (HL p false true false [] [] s_empty st en CNorm He Hp _ 0 [] [] [] 0 None code L' [] [] fs' Hcl
+              (or_introl (or_introl eq_refl)) eq_refl Hd
               ltac:(auto) ltac:(split; exact I) ltac:(exists [mkFunc (code ++ [INil; IReturn]) 0 0]; exact Hfuns)
-              [] [] [] [] [0] [] 0 ltac:(exists []; reflexivity) ltac:(constructor) HC0 eq_refl
+              [mkLocal None (Some 0) false] [] [] [] [] [0] [] 0 (flags_up_refl _) ltac:(exists []; reflexivity) ltac:(constructor) HC0 eq_refl
               (m_start bk_c funs) fn [] [] [] [] [INil; IReturn] 0)
     as (n1 & m1 & K1 & HL1 & G1 & O1 & S1 & ST1 & _ & _ & _ & Hcn1 & (CL1 & enb1 & _ & M1 & _)).
   { rewrite Hcode. reflexivity. }
+  { reflexivity. }
+  { intros l El. discriminate. }
   { discriminate. }
   { lia. }
   { intros i Hi. lia. }
@@ -220,11 +218,64 @@ Proof.
   replace (n1 + 2 + k) with (n1 + 1 + S k) by lia.
   rewrite backend_swap.
   - unfold Gen.run_funs. fold (@run_loop bk_c). rewrite Hrun. unfold eval_cells_fuel. rewrite He.
-    rewrite O3. now rewrite (stn_o _ _ _ _ _ _ _ _ _ ST1).
+    rewrite O3. now rewrite (stn_o _ _ _ _ _ _ _ _ _ _ ST1).
   - fold (@run_loop bk_c). rewrite Hrun. exact F3.
 Qed.
 
-Print Assumptions compile_scope_correct_stage2.
+(* STAGE 4: break / continue (fragment `stmt6 true false true false` of ScopeDefsN.v), for the repaired compiler
+   (`c_break_pops_first cf = true`: `break` emits the scope-end ops BEFORE its jump; with the shipped order the compiled
+   program differs from the Spec, `compile_scope_refuted_break_dead_pops`).
+   `break` / `continue` anywhere inside a loop body: in nested blocks and `if`s, after closures captured locals of the scopes
+   that are left (the early exit emits Pop for the locals not captured SO FAR and CloseUpvalue for the captured ones - the
+   static flags at that point, which for the locals of the current iteration are exactly the run-time captures), in
+   nested loops (innermost loop), in loops inside function bodies.  `return` out of nested scopes with captured locals
+   is part of stages 2 / 3 (ReturnFrame closes what is open). *)
+Theorem compile_scope_correct_stage4 : forall cf p funs fuel st en,
+  c_break_pops_first cf = true ->
+  forallb (stmt6 true false true false) p = true -> compile_scope cf p = Some funs ->
+  exec_list fuel p [] true s_empty = (st, en, CNorm) ->
+  exists n, forall k, Gen.run_funs bk_m cf (n + k) funs = eval_cells_fuel fuel p.
+Proof.
+  intros cf p funs fuel st en Hcf Hp Hc He.
+  destruct (compile_scope_stage4_shape cf p funs Hcf Hp Hc) as (code & L' & fs' & Hcl & Hfuns).
+  eapply compile_scope_correct_gen; eauto.
+Qed.
+
+Print Assumptions compile_scope_correct_stage4.
+
+(* STAGE 3: `for` loops and `if`, on top of stage 2 (fragment `stmt6 false false true false` of ScopeDefsN.v); any cfg.
+   `for i in 0..n { body }`: ONE variable i for the whole loop (a closure created in iteration k sees the values the later
+   iterations assign to it, and the StopIter value after the loop), FRESH cells for the variables declared in the body in
+   every iteration (closures created in different iterations do not share them); the hidden iterator local; the scope end
+   of the loop closing / popping i.  `if a < c { .. } else { .. }` with blocks.  Loops and ifs nest, also inside function
+   bodies, with `return` out of loops.  Same simulation as stage 4, compile correspondence without break / continue. *)
+Theorem compile_scope_correct_stage3 : forall cf p funs fuel st en,
+  forallb (stmt6 false false true false) p = true -> compile_scope cf p = Some funs ->
+  exec_list fuel p [] true s_empty = (st, en, CNorm) ->
+  exists n, forall k, Gen.run_funs bk_m cf (n + k) funs = eval_cells_fuel fuel p.
+Proof.
+  intros cf p funs fuel st en Hp Hc He.
+  destruct (compile_scope_stage3_shape cf p funs Hp Hc) as (code & L' & fs' & Hcl & Hfuns).
+  eapply compile_scope_correct_gen; eauto.
+Qed.
+
+Print Assumptions compile_scope_correct_stage3.
+
+(* STAGE 2: nested function levels, to any depth (fragment `stmt5 false true` of ScopeDefsN.v): a corollary of stage 3.
+   Script level and function bodies alike: var / assignment / print / expression statements / blocks (any nesting) /
+     `var f = |params| { body };` / `fn f(params) { body }`; in bodies also `return e`.
+   A closure created inside a closure body captures locals of that body (is_local = true; the captured flag makes the
+   scope end, or the return, close the upvalue inside the call frame) and variables of functions further out through
+   the enclosing closure's own upvalues (is_local = false, any number of levels: Parser::resolve_upvalue recursive);
+   the variable is shared by the declaring scope and all closures at all levels, while its frame is live and after it
+   has returned.  Self reference as in stage 1 (`var x = || .. x ..` only at the top level of the script). *)
+Corollary compile_scope_correct_stage2 : forall cf p funs fuel st en,
+  forallb (stmt5 false true) p = true -> compile_scope cf p = Some funs ->
+  exec_list fuel p [] true s_empty = (st, en, CNorm) ->
+  exists n, forall k, Gen.run_funs bk_m cf (n + k) funs = eval_cells_fuel fuel p.
+Proof.
+  intros cf p funs fuel st en Hp. apply compile_scope_correct_stage3. now apply forallb_stmt5_stmt6.
+Qed.
 
 (* STAGE 1 in its general form (one function level: parameters and arguments, declarations and blocks inside closure
    bodies, self reference): a corollary of stage 2 *)
@@ -321,3 +372,54 @@ Example stage2_example_ok :
   eval_cells stage2_example = "16|27|1122|2223#ok"%string /\
   run_m (mkCfg 256 256 true true false) stage2_example = "16|27|1122|2223#ok"%string.
 Proof. split; [reflexivity|]. split; [reflexivity|]. split; [eexists; split; vm_compute; reflexivity|]. split; vm_compute; reflexivity. Qed.
+
+(* loops: a closure per iteration over the body variable v2 (fresh each time: 11, 12, 13 then 12, 13 from the escaped
+   closures of iterations 0 and 1) and over the loop variable v1 (ONE variable: the closure of the last iteration sees the
+   StopIter value after the loop); `if` choosing where the closure escapes to; nested loops inside a function, a closure
+   over both loop variables returned out of the loops *)
+Definition stage3_example : prog :=
+  [ SLam 20 [] [SReturn (ELit 0)]; SLam 21 [] [SReturn (ELit 0)]; SLam 22 [] [SReturn (ELit 0)];
+    SLoop 1 3 [ SDecl 2 (EAdd (EVar 1) (ELit 10));
+                SLam 3 [] [SAssign 2 (EAdd (EVar 2) (ELit 1)); SReturn (EVar 2)];
+                SIf (EVar 1) (ELit 1) [SAssign 20 (EVar 3)] [ SIf (EVar 1) (ELit 2) [SAssign 21 (EVar 3)] [SLam 4 [] [SReturn (EVar 1)]; SAssign 22 (EVar 4)] ];
+                SPrint (ECall 3 []) ];
+    SPrint (ECall 20 []); SPrint (ECall 21 []); SPrint (ECall 22 []);
+    SFun 30 [31] [ SDecl 32 (ELit 0);
+                   SLoop 33 3 [ SLoop 34 2 [ SAssign 32 (EAdd (EVar 32) (EAdd (EVar 33) (EVar 31))) ];
+                                SIf (ELit 1) (EVar 33) [ SLam 35 [] [SReturn (EAdd (EVar 33) (EVar 32))]; SReturn (EVar 35) ] [] ];
+                   SReturn (EVar 32) ];
+    SDecl 40 (ECall 30 [ELit 100]); SPrint (ECall 40 []) ].
+
+Example stage3_example_ok :
+  forallb (stmt6 false false true false) stage3_example = true /\ forallb (stmt5 false true) stage3_example = false /\
+  (exists funs, compile_scope (mkCfg 256 256 true true false) stage3_example = Some funs) /\
+  eval_cells stage3_example = "11|12|13|12|13|<StopIter instance>|608#ok"%string /\
+  run_m (mkCfg 256 256 true true false) stage3_example = "11|12|13|12|13|<StopIter instance>|608#ok"%string.
+Proof. split; [reflexivity|]. split; [reflexivity|]. split; [eexists; vm_compute; reflexivity|]. split; vm_compute; reflexivity. Qed.
+
+(* break / continue out of nested scopes with captured locals: a closure per iteration over a body variable, `continue`
+   from inside an `if` after the closure escaped, `break` from inside a nested block whose local was captured by a closure
+   (CloseUpvalue emitted by the early exit), nested loops with `continue` in a function, `return` of a closure from
+   inside a loop *)
+Definition stage4_example : prog :=
+  [ SLam 20 [] [SReturn (ELit 0)]; SLam 21 [] [SReturn (ELit 0)]; SDecl 22 (ELit 0);
+    SLoop 1 4 [ SDecl 2 (EAdd (EVar 1) (ELit 10));
+                SLam 3 [] [SAssign 2 (EAdd (EVar 2) (ELit 1)); SReturn (EAdd (EVar 2) (EVar 1))];
+                SIf (EVar 1) (ELit 1) [SAssign 20 (EVar 3)] [ SIf (EVar 1) (ELit 2) [SAssign 21 (EVar 3); SContinue] [] ];
+                SBlock [ SDecl 4 (ELit 7); SLam 5 [] [SReturn (EAdd (EVar 4) (EVar 2))];
+                         SIf (ELit 2) (EVar 1) [SAssign 22 (ECall 5 []); SBreak] [];
+                         SPrint (ECall 5 []) ];
+                SPrint (ECall 3 []) ];
+    SPrint (ECall 20 []); SPrint (ECall 21 []); SPrint (EVar 22);
+    SFun 30 [31] [ SDecl 32 (ELit 0);
+                   SLoop 33 3 [ SLoop 34 2 [ SIf (EVar 34) (ELit 1) [SContinue] []; SAssign 32 (EAdd (EVar 32) (EAdd (EVar 33) (EVar 31))) ];
+                                SIf (ELit 0) (EVar 33) [ SLam 35 [] [SReturn (EVar 33)]; SReturn (EVar 35) ] [] ];
+                   SReturn (EVar 32) ];
+    SDecl 40 (ECall 30 [ELit 100]); SPrint (ECall 40 []) ].
+
+Example stage4_example_ok :
+  forallb (stmt6 true false true false) stage4_example = true /\ forallb (stmt6 false false true false) stage4_example = false /\
+  (exists funs, compile_scope (mkCfg 256 256 true true false) stage4_example = Some funs) /\
+  eval_cells stage4_example = "17|11|19|15|15|15|20|1#ok"%string /\
+  run_m (mkCfg 256 256 true true false) stage4_example = "17|11|19|15|15|15|20|1#ok"%string.
+Proof. split; [reflexivity|]. split; [reflexivity|]. split; [eexists; vm_compute; reflexivity|]. split; vm_compute; reflexivity. Qed.
